@@ -2,7 +2,7 @@
    self-delimiting at any offset ([codec_ok]); numeric and composite keys compare in their
    encoded form as their values do; length-prefixed strings do not. *)
 From Brc.Model Require Import Base History Codec.
-From Coq Require Import Arith PeanoNat.
+From Coq Require Import Arith PeanoNat Pnat.
 
 Arguments N.add : simpl never.
 Arguments N.mul : simpl never.
@@ -135,6 +135,70 @@ Proof.
   destruct (x ?= y); auto.
 Qed.
 
+(* ---------------- the counted loop of Vec::decode ---------------- *)
+Definition guard {St} (f : res St -> res St) (s : res St) : res St := if is_ok s then f s else s.
+Fixpoint itn {St} (k : nat) (g : St -> St) (s : St) : St :=
+  match k with O => s | S k' => g (itn k' g s) end.
+
+Lemma itn_guard_fail {St} (f : res St -> res St) k s : is_ok s = false -> itn k (guard f) s = s.
+Proof.
+  intros H. induction k; cbn [itn]; [reflexivity|]. rewrite IHk. unfold guard. rewrite H. reflexivity.
+Qed.
+
+Lemma itn_plus {St} (g : St -> St) a b s : itn (a + b) g s = itn a g (itn b g s).
+Proof. induction a; cbn [Nat.add itn]; congruence. Qed.
+
+Lemma itn_succ_r {St} (g : St -> St) k s : itn (S k) g s = itn k g (g s).
+Proof. replace (S k) with (k + 1)%nat by lia. rewrite itn_plus. reflexivity. Qed.
+
+Lemma iter_ok_nat {St} (f : res St -> res St) :
+  (forall s, is_ok s = false -> f s = s) ->
+  forall p s, iter_ok p f s = itn (Pos.to_nat p) (guard f) s.
+Proof.
+  intros Hf. induction p as [p IH|p IH|]; intros s; cbn [iter_ok].
+  - destruct (is_ok s) eqn:E.
+    + rewrite !IH. rewrite Pos2Nat.inj_xI. cbn [itn]. rewrite <- itn_plus.
+      replace (Pos.to_nat p + Pos.to_nat p)%nat with (2 * Pos.to_nat p)%nat by lia.
+      set (t := itn (2 * Pos.to_nat p) (guard f) s). unfold guard at 1.
+      destruct (is_ok t) eqn:Et; [reflexivity|]. apply Hf. exact Et.
+    + symmetry. apply itn_guard_fail. exact E.
+  - destruct (is_ok s) eqn:E.
+    + rewrite !IH. rewrite Pos2Nat.inj_xO. rewrite <- itn_plus. f_equal. lia.
+    + symmetry. apply itn_guard_fail. exact E.
+  - reflexivity.
+Qed.
+
+Lemma many_step_fail {A} (d : bytes -> nat -> res (A * nat)) b s :
+  is_ok s = false -> many_step d b s = s.
+Proof. destruct s; [discriminate| |]; reflexivity. Qed.
+
+Definition push_res {A} (acc : list A) (r : res (list A * nat)) : res (list A * nat) :=
+  match r with Ok (l, o) => Ok (rev l ++ acc, o) | Err => Err | Panic => Panic end.
+
+Lemma itn_many {A} (d : bytes -> nat -> res (A * nat)) b k : forall acc o,
+  itn k (guard (many_step d b)) (Ok (acc, o)) = push_res acc (dec_arr d k b o).
+Proof.
+  induction k; intros acc o.
+  - reflexivity.
+  - rewrite itn_succ_r. cbn [dec_arr]. unfold guard at 2. cbn [is_ok many_step rbind fst snd].
+    destruct (d b o) as [[x o1]| |]; cbn [rbind fst snd].
+    + rewrite IHk. destruct (dec_arr d k b o1) as [[l o2]| |]; cbn [rbind push_res fst snd rev]; try reflexivity.
+      rewrite <- app_assoc. reflexivity.
+    + apply itn_guard_fail. reflexivity.
+    + apply itn_guard_fail. reflexivity.
+Qed.
+
+Lemma dec_many_arr {A} (d : bytes -> nat -> res (A * nat)) n b o :
+  dec_many d n b o = dec_arr d (N.to_nat n) b o.
+Proof.
+  unfold dec_many. destruct n as [|p].
+  - reflexivity.
+  - rewrite iter_ok_nat by (apply many_step_fail). rewrite itn_many.
+    change (N.to_nat (N.pos p)) with (Pos.to_nat p).
+    destruct (dec_arr d (Pos.to_nat p) b o) as [[l o2]| |]; cbn [push_res rbind fst snd]; try reflexivity.
+    rewrite app_nil_r, rev_involutive. reflexivity.
+Qed.
+
 (* ---------------- round trip ---------------- *)
 (* lossless and self-delimiting, at any offset, whatever follows *)
 Definition codec_ok {A} (c : codec A) : Prop :=
@@ -258,7 +322,7 @@ Proof.
   assert (Hlen : wf c_u32 (N.of_nat (length xs)) = true).
   { unfold c_u32. rewrite wf_be. exact Hl. }
   assert (H := c_be_ok 4 (N.of_nat (length xs)) pre (flat_map (enc c) xs ++ rest) Hlen).
-  rewrite enc_be in H. fold c_u32 in H. rewrite H. cbn [rbind fst snd]. rewrite Nat2N.id.
+  rewrite enc_be in H. fold c_u32 in H. rewrite H. cbn [rbind fst snd]. rewrite dec_many_arr, Nat2N.id.
   assert (H2 := dec_arr_ok (enc c) (dec c) xs
                   (fun x Hx pre' rest' => Hc x pre' rest' (forallb_In _ _ _ Hall Hx))
                   (pre ++ be 4 (N.of_nat (length xs))) rest).
